@@ -257,6 +257,37 @@ def check_whole_string_value(ctx, d) -> None:
     ctx.floor(rule, n, 2, "returns of a typed parameter value in the span-substituting helpers of dsl.py")
 
 
+def check_substitution_traverses_dictionaries(ctx, d) -> None:
+    """R14: the existence check of parameter references looks inside dictionary values; the substitution must too."""
+    rule = "C06.R14-substitution-reaches-into-dictionaries"
+    rp = d.functions.get("replace_parameter_references")
+    ctx.require(rp is not None, "anchor missing: replace_parameter_references in dsl.py")
+    ctx.analysed(rp)
+    # does the validator descend into dictionaries?  (a function that discovers references and iterates .items()/.values() of a dict value)
+    # the validator of dsl.py calls a discover_references* helper (here or in flowir.py) on the argument values
+    fl_mod = ctx.repo.module("python/experiment/model/frontends/flowir.py")
+    used = {last_attr(c) for f in d.functions.values() for c in source.calls_in(f) if (last_attr(c) or "").startswith("discover_references")}
+    validators = []
+    for mod in (d, fl_mod):
+        for q, f in mod.functions.items():
+            if q.split(".")[-1] in used and any(
+                    isinstance(t, ast.Call) and call_name(t) == "isinstance" and len(t.args) == 2 and "dict" in source.src(t.args[1]) for t in ast.walk(f)):
+                validators.append(q)
+    # does the substitution?  a dict test whose true side recurses (a call of the function itself / of the per-string helper per value)
+    recurses = any(isinstance(t, ast.Call) and call_name(t) == "isinstance" and len(t.args) == 2 and "dict" in source.src(t.args[1])
+                   and isinstance(iff, ast.If) and any(isinstance(c, ast.Call) and call_name(c) in ("replace_parameter_references", "_replace_many_parameter_references")
+                                                      for st in iff.body for c in ast.walk(st))
+                   for iff in source.walk_own(rp) if isinstance(iff, ast.If) for t in ast.walk(iff.test))
+    ok = recurses or not validators
+    ctx.ob(rule, rp, ok,
+           "replace_parameter_references substitutes inside dictionary values as well" if recurses else
+           ("no validator descends into dictionaries" if ok else
+            "the existence check of parameter references (%s) looks inside dictionary-valued arguments, replace_parameter_references stops at a "
+            "dictionary: args {env: {GREETING: '%%(greeting)s'}} keeps the reference, it reaches the FlowIR environment unresolved and is later "
+            "resolved against the entry workflow's global variable instead of the argument supplied along the call chain" % ", ".join(validators)),
+           construct="replace_parameter_references: dictionary values are substituted too")
+
+
 def check_first_element_access(ctx, d) -> None:
     """R13: <obj>.<list field that may be empty>[0] is read only where the list was tested to be non-empty (or the empty case recorded an
     error that is raised before the read)."""
@@ -436,6 +467,9 @@ def run(ctx) -> None:
     ctx.rule("C06.R12-typed-value-only-for-a-whole-string-reference", "a span-substituting helper returns a parameter's value itself (int, bool, "
              "dict - not spliced into the text) only on paths that established <match>.start() == 0 and <match>.end() == len(<string>): "
              "the reference is the whole string, nothing before it was substituted away")
+    ctx.rule("C06.R14-substitution-reaches-into-dictionaries", "parameter references are substituted wherever their existence is checked: the validator "
+             "descends into dictionary-valued arguments, so replace_parameter_references must substitute inside them too (fails on the "
+             "current tree: known finding)")
     ctx.rule("C06.R13-first-element-of-a-possibly-empty-field", "dsl.py reads <object>.<field>[0] of a schema list whose default is [] only where the "
              "list was tested non-empty, or where the empty case recorded a located error that is raised before the read")
     ctx.rule("C06.R9-ancestor-chain-is-balanced", "the cycle detector of ScopeStack decides from containers that enter() grows and exit() "
@@ -684,6 +718,7 @@ def run(ctx) -> None:
     check_loops_progress(ctx, d)
     check_whole_string_value(ctx, d)
     check_first_element_access(ctx, d)
+    check_substitution_traverses_dictionaries(ctx, d)
     check_split_full_prefix(ctx, d)
 
     # ---------------- R6 -------------------------------------------------------------------------------
